@@ -60,7 +60,7 @@ func (e *vExpr) String() string {
 	case "lit":
 		return `"x"`
 	case "lit2":
-		return `"a\"\\b%d\\"`
+		return `"a\"  \\b%d\\"`
 	case "prod":
 		return fmt.Sprintf("P%d", e.prod)
 	case "uni":
@@ -283,7 +283,7 @@ func vBuild(e *vExpr, prods []*strct) node {
 	case "lit":
 		return &literal{s: "x", t: lexer.EOF}
 	case "lit2":
-		return &literal{s: "a\"\\b%d\\", t: lexer.EOF}
+		return &literal{s: "a\"  \\b%d\\", t: lexer.EOF}
 	case "prod":
 		return prods[e.prod]
 	case "eof":
@@ -385,7 +385,7 @@ func validateNoPanic(n node) (err error, panicked interface{}) {
 // re-enter itself before consuming a token.
 func TestVerif_C08C06C19_LeftRecursion(t *testing.T) {
 	res := &verifResult{Check: "validate left recursion", Property: "C08 C06 C19", Exhaustive: true,
-		Bound: "all grammars with one production whose body has <= 4 (thorough: 5) operator/leaf nodes, and all grammars with two productions with bodies of <= 3 (thorough: P0 <= 3, P1 <= 4) nodes, over {literal, production reference, a union-typed reference (members: the other production), a reference to the EOF token, an untyped \"\" literal, sequence, choice, ? * + !, ~, (?= ), (?! ), capture, redundant parentheses}; node graphs built directly in-package; the smaller two-production grammars also entered through a union of all their productions",
+		Bound: "all grammars with one production whose body has <= 4 (thorough: 5) operator/leaf nodes, and all grammars with two productions with bodies of <= 3 (thorough: P0 <= 3, P1 <= 4) nodes, over {literal, production reference, a union-typed reference (members: the other production), a reference to the EOF token, an untyped \"\" literal, sequence, choice, ? * + !, ~, (?= ), (?! ), capture, redundant parentheses}; node graphs built directly in-package; the smaller two-production grammars also entered through a union of all their productions; plus 7 128 larger shapes (11 prefixes x up to two of 8 wrappers x 4 second productions x 2 contexts) around a reference back to the production",
 		Rule: "distinct grammars; non-trivial = the specification says left-recursive, or the grammar has a nullable prefix / second alternative before a production reference"}
 	one, twoA, twoB := 4, 3, 3
 	if verifThorough() {
@@ -439,6 +439,34 @@ func TestVerif_C08C06C19_LeftRecursion(t *testing.T) {
 				res.violate("accepted although left-recursive: %s", d)
 			} else {
 				res.violate("rejected although not left-recursive: %s (%v)", d, firstLineOf(err))
+			}
+		}
+	}
+	// larger shapes than the enumeration reaches: a prefix that can match nothing, under one or two wrappers, in
+	// front of a reference back to the production (and the same with a prefix that cannot)
+	{
+		lit := &vExpr{op: "lit"}
+		opt := func(e *vExpr) *vExpr { return &vExpr{op: "opt", a: e} }
+		seq := func(a, b *vExpr) *vExpr { return &vExpr{op: "seq", a: a, b: b} }
+		un := func(op string, e *vExpr) *vExpr { return &vExpr{op: op, a: e} }
+		p0, p1 := &vExpr{op: "prod", prod: 0}, &vExpr{op: "prod", prod: 1}
+		prefixes := []*vExpr{opt(lit), un("paren", seq(opt(lit), opt(lit))), un("cap", opt(lit)), un("star", lit), p1, un("paren", p1), un("nonempty", seq(opt(lit), opt(lit))), lit, un("plus", lit), un("neg", lit), un("lookneg", lit)}
+		wrappers := []string{"", "opt", "star", "plus", "paren", "cap", "lookpos", "lookneg", "nonempty"}
+		for _, second := range []*vExpr{opt(lit), seq(opt(lit), opt(lit)), lit, un("star", un("paren", opt(lit)))} {
+			for _, pre := range prefixes {
+				for _, w1 := range wrappers {
+					for _, w2 := range wrappers {
+						body := seq(pre, seq(p0, lit))
+						if w1 != "" {
+							body = un(w1, body)
+						}
+						if w2 != "" {
+							body = un(w2, body)
+						}
+						check([]*vExpr{seq(body, lit), second})
+						check([]*vExpr{&vExpr{op: "alt", a: seq(body, lit), b: lit}, second})
+					}
+				}
 			}
 		}
 	}
